@@ -20,7 +20,8 @@ that provides `__eq__` / `__hash__` is found along the MRO, its source is parsed
           statement (`tuple>hash`, `sorted>tuple>hash`); a comparison operand
           ends in `==` / `!=`; a value iterated by a comprehension / for loop
           continues with `each{..}` listing what is applied to the elements
-          (`zip>each{set>==}>all`, `each{tuple}>tuple>hash`).
+          (`zip>each{set>==}>all`, `each{tuple}>tuple>hash`); a statement inside `try:` ends in
+          `try:<caught exceptions>`, one inside a handler in `except`.
 
 The table is written to lean/BqVerif/Generated/GateIdentity.lean on every run.
 `Props/C18.lean` proves (decide) that it equals the hand-maintained
@@ -168,6 +169,18 @@ def accesses(fn_node):
                         and isinstance(p.targets[0], ast.Name) and stop is None:
                     # the value is kept in a local variable: continue with its uses
                     chain.append('=' + var_uses(fn_node.body, p.targets[0].id, fn_node))
+                if stop is None:
+                    # inside `try:` (the exceptions it catches) / inside an `except` handler
+                    q = p
+                    while q in parents:
+                        pq = parents[q]
+                        if isinstance(pq, ast.Try) and q in pq.body:
+                            names = sorted(ast.unparse(h.type) if h.type is not None else '*'
+                                           for h in pq.handlers)
+                            chain.append('try:' + ','.join(names))
+                        elif isinstance(pq, ast.ExceptHandler):
+                            chain.append('except')
+                        q = pq
                 break
             cur = p
         return chain
